@@ -100,6 +100,31 @@ pub struct Geometry {
 }
 
 impl Geometry {
+    /// An event with one block of `len` contiguous anode wires starting at `start` (wrapping over the
+    /// 255/0 seam), each wire with a pulse; no pads. Used for history tests of the block solver.
+    pub fn block_event(&self, rng: &mut Rng, start: usize, len: usize, samples: usize) -> Spec {
+        let dw = hooks::wire_delay(self.run).unwrap_or(100);
+        let clip = |x: f64| x.round().clamp(-32768.0, 32767.0) as i16;
+        let mut wires = Vec::new();
+        for k in 0..len {
+            let w = (start + k) % 256;
+            let pos = TpcWirePosition::try_from(w).unwrap();
+            let bl = hooks::wire_baseline(self.run, pos).unwrap_or(0) as f64;
+            let gn = hooks::wire_gain(self.run, pos).unwrap_or(1.0);
+            let mut sig = vec![0.0; samples];
+            let bin = 5 + rng.below(60) as usize;
+            let a = 300.0 + 10.0 * rng.below(200) as f64;
+            for (i, x) in self.wire_resp.iter().enumerate() {
+                if dw + bin + i < sig.len() {
+                    sig[dw + bin + i] += a * x;
+                }
+            }
+            let (board, ch) = self.wire_src[w];
+            wires.push(WireSpec { board, ch, wave: sig.iter().map(|x| clip(bl + x / gn)).collect() });
+        }
+        Spec { run: self.run, ts: rng.next() as u32, wires, pads: vec![] }
+    }
+
     pub fn new(run: u32) -> Option<Geometry> {
         let mut wire_src = vec![(0usize, 0u8); 256];
         for (bi, (name, _)) in c10::a16_boards().iter().enumerate() {
@@ -262,6 +287,14 @@ fn name_pool(rng: &mut Rng) -> String {
         5 => "MCVX".to_string(),
         6 => String::from_utf8_lossy(&rng.bytes(4)).to_string(),
         7 => ["", "C", "PC", "C09", "PC000", "C09AA", "é€", "ATA", "ATATT", "C+9A", "C0+A", "PC+1", "Cé9", "PCé"][rng.below(14) as usize].to_string(),
+        // names of exactly 4 bytes with a non-ASCII upper-case letter / digit where the parsers slice by
+        // byte index (seed C09-6)
+        11 if rng.bool() => {
+            let p = *rng.pick(&["B", "C", "P", "A"]);
+            let x = *rng.pick(&["É", "Σ", "Я", "٣", "¹", "é"]);
+            let d = (b'0' + rng.below(10) as u8) as char;
+            match rng.below(3) { 0 => format!("{p}{d}{x}"), 1 => format!("{p}{x}{d}"), _ => format!("{p}{}", "Ａ") }
+        }
         8 => format!("C{:02}{}", rng.below(100), (b'0' + rng.below(43) as u8) as char),
         9 => format!("PC{:02}", rng.below(100)),
         10 => format!("B{:02}{:X}", rng.below(100), rng.below(16)),
